@@ -1118,32 +1118,30 @@ impl State {
                 let e = self
                     .dict_entry(&name)
                     .ok_or_else(|| Xerr::UnknownWord(name.clone()))?;
-                match e {
-                    Entry::Constant(c) => {
-                        let op = self.load_value_opcode(c.clone());
-                        self.backpatch(ip, op)?;
-                        self.fetch_and_run()?;
-                    }
-                    Entry::Variable(a) => {
-                        let op = Opcode::Load(*a);
-                        self.backpatch(ip, op)?;
-                        self.fetch_and_run()?;
-                    }
+                let op = match e {
+                    Entry::Constant(c) => self.load_value_opcode(c.clone()),
+                    Entry::Variable(a) => Opcode::Load(*a),
                     Entry::Function {
                         xf: Xfn::Interp(x), ..
-                    } => {
-                        let op = Opcode::Call(*x);
-                        self.backpatch(ip, op)?;
-                        self.fetch_and_run()?;
-                    }
+                    } => Opcode::Call(*x),
                     Entry::Function {
                         xf: Xfn::Native(x), ..
-                    } => {
-                        let op = Opcode::NativeCall(*x);
-                        self.backpatch(ip, op)?;
-                        self.fetch_and_run()?;
-                    }
+                    } => Opcode::NativeCall(*x),
+                };
+                // while a source is still being read its definitions can be withdrawn (the
+                // words of a meta block are purged when it closes, a rejected source is
+                // unwound): the resolution is only kept once nothing is being read
+                let unresolved = if self.input.is_empty() {
+                    None
+                } else {
+                    Some(self.code[ip].clone())
+                };
+                self.backpatch(ip, op)?;
+                let res = self.fetch_and_run();
+                if let Some(op) = unresolved {
+                    self.backpatch(ip, op)?;
                 }
+                res?;
             }
             Opcode::LoadStr(x) => {
                 let val = Cell::from(x.clone());
